@@ -179,6 +179,34 @@ func audioOnlyAsset(dir string) (*lib.TLAsset, error) {
 		LoopMS: 1000 * vr.Duration() / vr.Timescale}, nil
 }
 
+// genLayouts are the generated assets the sessions use besides the bundled ones: several video
+// representations with different media timescales (no bundled asset has more than one), several
+// audio tracks, file-based subtitles.
+func genLayouts() []lib.GenAsset {
+	var out []lib.GenAsset
+	for _, l := range lib.GenCatalogue() {
+		if l.Asset.Name == "g_ntsc_multi" {
+			out = append(out, l.Asset)
+		}
+	}
+	v2s := lib.UniformDurs(4, 180000)
+	out = append(out, lib.GenAsset{Name: "g_c16_multi", Reps: []lib.GenRep{
+		lib.VideoRep("V1", 90000, 3000, v2s),
+		lib.VideoRep("V2", 12800, 512, lib.UniformDurs(4, 25600)),
+		lib.VideoRep("V3", 1000, 40, lib.UniformDurs(4, 2000)),
+		lib.AudioRep("A48", 1024, lib.AudioDursFollowing(v2s, 90000, 48000, 1024, 0)),
+		lib.AudioRep("A48b", 1024, lib.AudioDursFollowing(v2s, 90000, 48000, 1024, 0)),
+		lib.StppRep("sub_en", 1000, lib.UniformDurs(4, 2000)),
+	}})
+	// two video tracks with a different number of segments for the same loop (8 x 1 s and 4 x 2 s are
+	// not aligned segment by segment, so the tracks below keep the segment grid and differ in timescale only)
+	out = append(out, lib.GenAsset{Name: "g_c16_two_video", Reps: []lib.GenRep{
+		lib.VideoRep("Va", 30000, 1001, lib.UniformDurs(5, 60*1001)),
+		lib.VideoRep("Vb", 60000, 1001, lib.UniformDurs(5, 120*1001)),
+	}})
+	return out
+}
+
 func genSessions(c *lib.Ctx, rng *rand.Rand) []sessIn {
 	var out []sessIn
 	add := func(s sessIn) {
@@ -357,6 +385,26 @@ func genSessions(c *lib.Ctx, rng *rand.Rand) []sessIn {
 		add(sessIn{Kind: "realtime", Asset: "testpic_2s", MPD: "Manifest.mpd", Cfg: cfgIn{Mode: "number", Snr: -1, Tsbd: -1}, Test: false, AlignMS: 2000, AlignOff: 300, Solo: true,
 			Events: []evIn{{Kind: "wait", WaitMS: 2000}, {Kind: "wait", WaitMS: 2000}, {Kind: "delete"}}})
 	}
+	// 12. generated assets with several video representations of different timescales, two audio
+	//     tracks and subtitles: every representation endpoint gets its own segment per step
+	genRoot := filepath.Join(c.Out, "vod_c16")
+	for gi, g := range genLayouts() {
+		for mi, mode := range []string{"tlt", "number", "tlnr"} {
+			if mi >= 2 && !c.Thorough() {
+				continue
+			}
+			for k := 0; k < mult; k++ {
+				now := []int64{10000, 1700000000000, 16016, 8008, 3600000}[(gi+mi+k)%5]
+				s := sessIn{Kind: "gen-multi-video", Asset: g.Name, MPD: "Manifest.mpd", VodRoot: genRoot, Cfg: cfgIn{Mode: mode, Snr: -1, Tsbd: -1},
+					NowMS: now, Test: true, Events: steps(2 + (gi+mi+k)%4), Streams: (gi+mi+k)%3 == 1}
+				if (gi+mi+k)%4 == 3 {
+					s.Dur = intp(3)
+					s.Events = steps(4)
+				}
+				add(s)
+			}
+		}
+	}
 	// 11. an audio-only asset: the reference representation is the AAC track, whose segment ends are not
 	//     whole milliseconds; long enough to cross the loop boundary twice
 	for i, mode := range []string{"number", "tlnr"} {
@@ -421,6 +469,16 @@ func runSessions(c *lib.Ctx, terms *[]string) error {
 		return err
 	}
 	byPath[ao.Path] = ao
+	for _, g := range genLayouts() {
+		if err := lib.WriteAsset(filepath.Join(c.Out, "vod_c16"), g); err != nil {
+			return fmt.Errorf("write %s: %w", g.Name, err)
+		}
+		ga, err := lib.LoadGenAsset(filepath.Join(c.Out, "vod_c16"), g)
+		if err != nil {
+			return err
+		}
+		byPath[ga.Path] = ga
+	}
 	rng := rand.New(rand.NewSource(c.Seed*15485863 + 16))
 	sessions := genSessions(c, rng)
 	outs := playAll(c, sessions)
@@ -449,6 +507,7 @@ func playAll(c *lib.Ctx, sessions []sessIn) map[int]*played {
 	var cur []sessIn
 	per := 14
 	groups := map[string][]sessIn{}
+	curAlt := map[string][]sessIn{}
 	var groupOrder []string
 	for _, s := range sessions {
 		if s.Solo {
@@ -462,6 +521,14 @@ func playAll(c *lib.Ctx, sessions []sessIn) map[int]*played {
 			groups[s.Group] = append(groups[s.Group], s)
 			continue
 		}
+		if s.VodRoot != "" { // one livesim2 instance per vodroot
+			curAlt[s.VodRoot] = append(curAlt[s.VodRoot], s)
+			if len(curAlt[s.VodRoot]) >= per {
+				batches = append(batches, curAlt[s.VodRoot])
+				curAlt[s.VodRoot] = nil
+			}
+			continue
+		}
 		cur = append(cur, s)
 		if len(cur) >= per {
 			batches = append(batches, cur)
@@ -470,6 +537,11 @@ func playAll(c *lib.Ctx, sessions []sessIn) map[int]*played {
 	}
 	if len(cur) > 0 {
 		batches = append(batches, cur)
+	}
+	for _, b := range curAlt {
+		if len(b) > 0 {
+			batches = append(batches, b)
+		}
 	}
 	for _, g := range groupOrder {
 		batches = append(batches, groups[g])
@@ -1128,6 +1200,16 @@ func replay(c *lib.Ctx) error {
 				return err
 			}
 			assets = append(assets, ao)
+			for _, g := range genLayouts() {
+				if err := lib.WriteAsset(s.VodRoot, g); err != nil {
+					return err
+				}
+				ga, err := lib.LoadGenAsset(s.VodRoot, g)
+				if err != nil {
+					return err
+				}
+				assets = append(assets, ga)
+			}
 		}
 		s.ID = 0
 		s.Solo = true
